@@ -176,6 +176,8 @@ def mk_probes(tier, only=None):
         for op in ["+", "*", "/", "<", ">>", "&"]:
             for t1 in INT9:
                 for kv in (-5, 3):
+                    if op == ">>" and kv < 0:
+                        continue          # a negative shift count is never defined: the probe would be vacuous
                     ref = (lambda op, t1, kv: lambda a: binop(op, a, t1, z3.BitVecVal(kv, 32), INT)[0::2])(op, t1, kv)
                     _, rt, _ = binop(op, z3.BitVec("x", t1.bits), t1, z3.BitVecVal(kv, 32), INT)
                     P.append(e2.ScalarProbe("enum/%s/%s/%s" % (OPNAME[op], t1.cid, "m5" if kv < 0 else "p3"), fn(), rt, [t1],
